@@ -251,39 +251,42 @@ def gen_cases(ctx):
 
 
 def monitor_items(kind, c, o):
-    """Gallina `mobs` terms for the implementation's outputs of one case (with where they came from)."""
+    """Gallina `sobs` terms for the implementation's outputs of one case: (tag, term)."""
     items = []
     if o[0] != 0:
         return items
-    m = g_map(c["map"])
-    w = glist(["(%s, %s)" % (gz(n), gz(x)) for n, x in c["w"]])
     topo = o[5]
     if topo[0] == 0:
-        items.append(("topo", "(MTopo %s %s)" % (m, g_nodes(topo[1]))))
+        items.append(("topo", "STopo %s" % g_nodes(topo[1])))
     else:
-        items.append(("topo-error", "(MTopoErr %s %s)" % (m, gz(topo[1]))))
+        items.append(("topo-error", "STopoErr %s" % gz(topo[1])))
     acyc = is_acyclic(c["map"])
     simple = is_simple(c["map"])
     if acyc and simple:
-        items.append(("bfs", "(MBfs %s %s %s)" % (m, g_nodes(o[6][0]), gz(o[6][1]))))
+        items.append(("bfs", "SBfs %s %s" % (g_nodes(o[6][0]), gz(o[6][1]))))
     positive = all(x > 0 for _, x in c["w"])
     small = len(node_order(c["map"])) <= 9
     if acyc and positive and o[9][0] == 0:
-        items.append(("longest", "(MLong %s %s %s %s)" % (m, w, g_nodes(o[9][1]), "true" if small else "false")))
+        items.append(("longest", "SLong %s %s" % (g_nodes(o[9][1]), "true" if small else "false")))
         if o[10][0] == 0:
-            items.append(("critical", "(MCrit %s %s %s)" % (m, w, gz(o[10][1]))))
+            items.append(("critical", "SCrit %s" % gz(o[10][1])))
     if acyc and o[8][0] == 0:
-        items.append(("longest-default", "(MLongDefault %s %s %s)" % (m, g_nodes(o[8][1]), "true" if small else "false")))
+        items.append(("longest-default", "SLongDefault %s %s" % (g_nodes(o[8][1]), "true" if small else "false")))
     known = set(node_order(c["map"]))
     for n, pn in zip(c["nodes"], o[11]):
         if n in known:
-            items.append(("dfs", "(MDfs %s %s %s %s)" % (m, gz(n), g_nodes(pn[5][0]), gz(pn[5][1]))))
+            items.append(("dfs", "SDfs %s %s %s" % (gz(n), g_nodes(pn[5][0]), gz(pn[5][1]))))
             if acyc and pn[3][0] == 0:
-                items.append(("depth", "(MDepth %s %s %s)" % (m, gz(n), gz(pn[3][1]))))
+                items.append(("depth", "SDepth %s %s" % (gz(n), gz(pn[3][1]))))
     for (u, v), r in zip(c["pairs"], o[12]):
         if acyc and u in known and v in known:
-            items.append(("dependent", "(MDep %s %s %s %s %s)" % (m, gz(u), gz(v), gz(r[0]), gz(r[1]))))
+            items.append(("dependent", "SDep %s %s %s %s" % (gz(u), gz(v), gz(r[0]), gz(r[1]))))
     return items
+
+
+def g_mon_case(c, items):
+    w = glist(["(%s, %s)" % (gz(n), gz(x)) for n, x in c["w"]])
+    return "(%s, %s, %s)" % (g_map(c["map"]), w, glist([t for _, t in items]))
 
 
 def run(ctx):
@@ -304,6 +307,16 @@ def run(ctx):
     wr = [c for k, c in cases if k in ("exh3", "exh4", "samp5", "samp6", "rand", "shuf4")]
     wr = wr[:: max(1, len(wr) // (150 if ctx.tier == "quick" else 1500))]
     payload["wrappers"] = wr
+    # Graph.remove (dead code in the simulator: only TaskGraph.clean calls it): correspondence only
+    rm = []
+    small3 = all_dags(3) + all_dags(4)[:: (7 if ctx.tier == "quick" else 1)]
+    for edges in small3:
+        n = 1 + max([max(e) for e in edges] + [0])
+        m = mapping_of(max(n, 1), edges, ctx.rng)
+        for k in node_order(m):
+            rm.append({"map": m, "remove": k})
+    rm = rm[:: max(1, len(rm) // (150 if ctx.tier == "quick" else 2500))]
+    payload["remove"] = rm
     impl = core.run_impl("graph.py", payload, timeout=1500)
     obs = impl["obs"][:len(cases)]
     replay_corpus(ctx, corpus, impl["obs"][len(cases):])
@@ -346,6 +359,15 @@ def run(ctx):
     except core.ModelEvalError as e:
         ctx.broken.append({"kind": "correspondence", "name": "S-graph", "detail": str(e)[-600:]})
 
+    try:
+        rcases = [("(%s, %s)" % (g_map(c["map"]), gz(c["remove"])), o, c) for c, o in zip(rm, impl["remove"])]
+        mism = ctx.model_stream("S-graph-remove", HEADER, "adj * node", "g_observe_remove", rcases, shard=400)
+        for idx, mv in mism[:2]:
+            ctx.violation("remove%d" % idx, {"stream": "S-graph-remove", "case": rm[idx], "implementation": impl["remove"][idx],
+                                             "model": mv, "what": "Graph.remove followed by the traversals disagrees with the model"})
+    except core.ModelEvalError as e:
+        ctx.broken.append({"kind": "correspondence", "name": "S-graph-remove", "detail": str(e)[-600:]})
+
     # ---------------- wrappers (compared with the model's values computed above by the implementation-independent monitor
     # and with the Graph routines they wrap)
     try:
@@ -368,25 +390,33 @@ def run(ctx):
     except core.ModelEvalError as e:
         ctx.broken.append({"kind": "correspondence", "name": "S-graph-wrappers", "detail": str(e)[-600:]})
 
-    # ---------------- monitors on the implementation's own outputs
-    mons = []
-    where = []
-    for i, ((k, c), o) in enumerate(zip(cases, obs)):
-        for tag, term in monitor_items(k, c, o):
-            mons.append(term)
-            where.append((i, tag))
+    # ---------------- monitors on the implementation's own outputs: one term per case (all its
+    # observations), then the failing cases once more item by item to name the violated definition
+    per_case = [monitor_items(k, c, o) for (k, c), o in zip(cases, obs)]
+    idxs = [i for i, it in enumerate(per_case) if it]
     try:
-        bad = ctx.monitor_stream("S-graph", HEADER, "mobs", "mon", mons, shard=1500)
+        bad = ctx.monitor_stream("S-graph", HEADER, "adj * list (node * Z) * list sobs", "mon_case",
+                                 [g_mon_case(cases[i][1], per_case[i]) for i in idxs], shard=150)
+        n_items = sum(len(per_case[i]) for i in idxs)
+        ctx.cov["input_distribution"]["monitor_observations"] = n_items
         shown = set()
-        for b in bad:
-            i, tag = where[b]
-            if tag in shown:
-                continue
-            shown.add(tag)
-            ctx.violation("mon_%s_%d" % (tag.replace("-", "_"), i),
-                          {"stream": "S-graph monitor", "monitor": tag, "kind": cases[i][0], "case": cases[i][1],
-                           "implementation": obs[i], "observation": mons[b],
-                           "what": "the implementation's output violates the definition (%s)" % tag})
-        ctx.cov["input_distribution"]["monitor_observations"] = len(mons)
+        for b in bad[:40]:
+            i = idxs[b]
+            c = cases[i][1]
+            single = [g_mon_case(c, [it]) for it in per_case[i]]
+            bad1 = ctx.monitor_stream("S-graph-locate", HEADER, "adj * list (node * Z) * list sobs", "mon_case", single)
+            for j in bad1:
+                tag, term = per_case[i][j]
+                if tag in shown:
+                    continue
+                shown.add(tag)
+                ctx.violation("mon_%s_%d" % (tag.replace("-", "_"), i),
+                              {"stream": "S-graph monitor", "monitor": tag, "kind": cases[i][0], "case": c,
+                               "implementation": obs[i], "observation": term,
+                               "what": "the implementation's output violates the definition (%s)" % tag})
+        if bad and not shown:
+            ctx.violation("mon_case_%d" % idxs[bad[0]], {"stream": "S-graph monitor", "case": cases[idxs[bad[0]]][1],
+                                                         "implementation": obs[idxs[bad[0]]],
+                                                         "what": "the implementation's outputs violate a definition"})
     except core.ModelEvalError as e:
         ctx.broken.append({"kind": "monitor", "name": "S-graph", "detail": str(e)[-600:]})
